@@ -12,20 +12,27 @@ MODULES = ["Mtv.Props.C20"]
 THEOREMS = [
     "Mtv.Links.resolveParsed_no_panic",
     "Mtv.Links.resolveString_no_panic",
+    "Mtv.Links.d16_unrepaired_panics",
     "Mtv.Links.templates_exclusive",
     "Mtv.Links.template_order_irrelevant",
     "Mtv.Links.username_ok",
     "Mtv.Links.invite_ok",
+    "Mtv.Links.port_ignored",
     "Mtv.Links.ok_only_if",
     "Mtv.Links.everything_else_error",
     "Mtv.Links.foreign_host_error",
     "Mtv.Links.other_scheme_error",
     "Mtv.Links.bare_host_error",
-    "Mtv.Links.port_ignored",
     "Mtv.Links.username_lowercased",
     "Mtv.Links.toLower_ascii",
     "Mtv.Links.reserved_hosts_are_the_five",
-    "Mtv.Links.d16_unrepaired_panics",
+    "Mtv.Links.link_resolves_as_parsed",
+    "Mtv.Links.reservedHosts_wellformed",
+    "Mtv.Links.link_username_ok",
+    "Mtv.Links.link_invite_ok",
+    "Mtv.Links.link_bare_host_error",
+    "Mtv.Links.link_foreign_host_error_partial",
+    "Mtv.Links.link_other_scheme_error_partial",
 ]
 RULE = ("operations: deeplinks.Resolve on the full structured product {'',http://,https://,tg://,ftp://,HTTP://} x "
         "{reserved hosts, look-alikes, empty} x {'',:443,:80} x base paths x {'',?q,#f,?q#f}, exhaustive 1- and 2-segment "
